@@ -21,6 +21,10 @@ Inductive case :=
    credential, databases and state): the matrix is recorded as about three such groups per context,
    which keeps the number of terms coqc has to load small *)
 | CCtx (cf : cfg) (k : kind) (h : hdr) (sel tgt : dbsel) (st : sstate) (cells : list (string * string * bool))
+(* two requests on ONE open stream of a multi-request RPC: the first with a valid credential, the
+   second after the event st2 (SValid = nothing happened; SExpired = the session was closed / the
+   user logged out) *)
+| CStream (svc rpc : string) (cf : cfg) (k : kind) (h : hdr) (sel tgt : dbsel) (st2 : sstate) (through1 through2 : bool)
 (* the harness' own copy of the specification row (used by its direct property oracle) *)
 | CSpec (svc rpc : string) (class_code_ : N) (mutates_ dbmgmt_ : bool).
 
@@ -36,6 +40,15 @@ Definition case_ok (c : case) : bool :=
   | CCtx cf k h sel tgt st cells =>
       let c := mk_cx cf k h sel tgt st in
       forallb (fun x => match x with (svc, rpc, through) => cell_ok c svc rpc through end) cells
+  | CStream svc rpc cf k h sel tgt st2 t1 t2 =>
+      match find_gate svc rpc with
+      | Some g =>
+          let c1 := mk_cx cf k h sel tgt SValid in
+          multi_request g &&
+          Bool.eqb (verdict_eqb (decide g c1) Through) t1 &&
+          Bool.eqb (verdict_eqb (decide_next g c1 (mk_cx cf k h sel tgt st2)) Through) t2
+      | None => false
+      end
   | CSpec svc rpc cc m d =>
       match find_spec svc rpc with
       | Some s => (class_code (sp_class s) =? cc)%N && Bool.eqb (sp_mutates s) m && Bool.eqb (sp_dbmgmt s) d
